@@ -47,11 +47,24 @@ CHECKS.update({
    ref='6/C10'),
 })
 
+CHECKS.update({
+ 'C15': dict(level='other', engine='S-ring/exp/euf',
+   technique='symbolic execution of rustc MIR over an abstract commutative ring with constants and addition chains abstracted (EUF); per-path polynomial identities by z3; exact chain exponents in the exponent domain',
+   text='osswu_help and both osswu_map impls are executed from MIR; z3 shows per path (1+1 candidates for G1, 4+4 for G2, exceptional denominator, sign fix-up) that the output is the Jacobian triple specified by WB19/RFC 9380 F.2 and, through an on-curve lemma and the SWU key identity, that it satisfies the curve equation given the hypothesis the path tests; chain_pm3div4 / chain_p2m9div16 raise to exactly (q-3)/4 and (q^2-9)/16; constants (A\', B\', Z, sqrt(-Z^3), roots of unity, etas) satisfy their defining equations.',
+   note='Trusted number theory: when g(x0) is a non-square the second candidate is a root (G1: Euler; G2: one eta matches), so the G2 terminal panic is unreachable. sgn0(-y) != sgn0(y) from C18.',
+   ref='6/C15'),
+ 'C16': dict(level='other', engine='S-ring',
+   technique='symbolic execution of rustc MIR over an abstract ring with SYMBOLIC coefficient tables (cut point after the Horner loops), polynomial identities by z3; exact polynomial arithmetic over Fq/Fq2 on the constants',
+   text='eval_iso is executed from MIR for the G1 and G2 instantiations with symbolic X,Y,Z and symbolic coefficients at the real table lengths: the four homogenised polynomial values and the Jacobian recombination equal the rational map x->xnum/xden, y->y*ynum/yden for every representative; Z=0 and xden=0 give Z\'=0. The 55+15 constants satisfy ynum^2 (x^3+A\'x+B\') xden^3 = (xnum^3 + b xden^3) yden^2 identically in x, so the image lies on the target curve for every input.',
+   note='Additivity (homomorphism) follows from the theorem that a rational map of elliptic curves fixing O is a homomorphism (trusted). Which of the finitely many such isogenies (automorphism twist) is pinned by the repo test vectors and by C06 native RFC vectors.',
+   ref='6/C16'),
+})
+
 NOT_APPLICABLE = {
  'C03': 'bilinearity/non-degeneracy is a theorem about Miller functions of degree ~2^63 in the inputs; no bounded SMT/SAT query expresses it and the pairing code cannot be re-instantiated over a toy curve (DESIGN 6/C03)',
  'C20': 'quantifies over thread schedules; Kani/CBMC do not model std::thread and the mechanism is a fact about declarations, not a solver query (DESIGN 6/C20)',
 }
-PENDING = ['C04','C05','C06','C07','C08','C11','C13','C15','C16','C18','C19']
+PENDING = ['C04','C05','C06','C07','C08','C11','C13','C18','C19']
 
 def main():
     checks = []
